@@ -36,9 +36,26 @@ type simCache struct {
 	m    map[string]*ast.QueryDocument
 	park bool
 	drop func() bool
+	// keyOf returns the exact query text of a request: the document cache must be keyed by it
+	keyOf  func(req int) string
+	badKey string
+}
+
+func (c *simCache) noteKey(ctx context.Context, key string) {
+	if c.keyOf == nil {
+		return
+	}
+	if want := c.keyOf(reqOf(ctx)); key != want {
+		c.mu.Lock()
+		if c.badKey == "" {
+			c.badKey = fmt.Sprintf("request %d with query %q used cache key %q", reqOf(ctx), want, key)
+		}
+		c.mu.Unlock()
+	}
 }
 
 func (c *simCache) Get(ctx context.Context, key string) (*ast.QueryDocument, bool) {
+	c.noteKey(ctx, key)
 	if c.park {
 		c.w.Park("cache-get", fmt.Sprintf("r%d", reqOf(ctx)), nil)
 	}
@@ -52,6 +69,7 @@ func (c *simCache) Get(ctx context.Context, key string) (*ast.QueryDocument, boo
 }
 
 func (c *simCache) Add(ctx context.Context, key string, v *ast.QueryDocument) {
+	c.noteKey(ctx, key)
 	if c.park {
 		c.w.Park("cache-add", fmt.Sprintf("r%d", reqOf(ctx)), nil)
 	}
@@ -149,6 +167,10 @@ func Run(rc *core.RunCtx) {
 	for i := range ws {
 		ws[i] = pool[t.Choose(len(pool), "req")]
 	}
+	if t.Bool(1, 4, "twins") {
+		tw := Twins[t.Choose(len(Twins), "twin")]
+		ws = append(ws, tw[0], tw[1])
+	}
 	reqs := make([]Req, n)
 	verdicts := make([]verdict, n)
 	for i := range reqs {
@@ -182,6 +204,12 @@ func Run(rc *core.RunCtx) {
 	switch cacheKind {
 	case 1, 2:
 		sc = &simCache{w: w, m: map[string]*ast.QueryDocument{}, park: cacheKind == 2}
+		sc.keyOf = func(r int) string {
+			if r >= 0 && r < len(reqs) {
+				return reqs[r].Query
+			}
+			return ""
+		}
 		cache = sc
 	case 3:
 		cache = lru.New[*ast.QueryDocument](1 + t.Choose(3, "lrusize"))
@@ -374,6 +402,10 @@ func Run(rc *core.RunCtx) {
 	}
 
 	// oracle
+	if sc != nil && sc.badKey != "" {
+		rc.Fail("document-cache-key-is-not-the-query-text", "cache", "%s", sc.badKey)
+		return
+	}
 	nRejected, nAccepted := 0, 0
 	for i := 0; i < n; i++ {
 		res := results[i]
